@@ -29,6 +29,7 @@ type Term struct {
 	Pats     [][]*Term // for KQuant
 	id       int
 	hasBound bool
+	fvs      []int // ids of free bound variables
 }
 
 type TermTable struct {
@@ -78,44 +79,33 @@ func (tt *TermTable) intern(t *Term) *Term {
 	}
 	tt.n++
 	t.id = tt.n
+	// free bound variables
+	fv := map[int]bool{}
 	if t.Kind == KBound {
-		t.hasBound = true
+		fv[t.id] = true
 	}
 	for _, a := range t.Args {
-		if a.hasBound {
-			t.hasBound = true
+		for _, v := range a.fvs {
+			fv[v] = true
+		}
+	}
+	for _, p := range t.Pats {
+		for _, q := range p {
+			for _, v := range q.fvs {
+				fv[v] = true
+			}
 		}
 	}
 	if t.Kind == KQuant {
-		// hasBound only if body mentions bound vars other than own
-		t.hasBound = false
-		own := map[int]bool{}
 		for _, v := range t.Vars {
-			own[v.id] = true
+			delete(fv, v.id)
 		}
-		var walk func(x *Term) bool
-		seen := map[int]bool{}
-		walk = func(x *Term) bool {
-			if !x.hasBound || seen[x.id] {
-				return false
-			}
-			seen[x.id] = true
-			if x.Kind == KBound {
-				return !own[x.id]
-			}
-			for _, a := range x.Args {
-				if walk(a) {
-					return true
-				}
-			}
-			if x.Kind == KQuant {
-				// nested quant: its hasBound already tells about outer vars; be conservative
-				return x.hasBound
-			}
-			return false
-		}
-		t.hasBound = walk(t.Args[0])
 	}
+	for v := range fv {
+		t.fvs = append(t.fvs, v)
+	}
+	sort.Ints(t.fvs)
+	t.hasBound = len(t.fvs) > 0
 	tt.tab[k] = t
 	return t
 }
@@ -483,6 +473,17 @@ func (tt *TermTable) Select(a, i *Term) *Term {
 	if a.Kind == KApp && a.Op == "const-array" {
 		return a.Args[0]
 	}
+	if a.Kind == KApp && a.Op == "ite" {
+		c, xa, ya := a.Args[0], a.Args[1], a.Args[2]
+		isStore := func(t *Term) bool { return t.Kind == KApp && t.Op == "store" }
+		if isStore(xa) || isStore(ya) || (i.Kind == KApp && i.Op == "ite" && i.Args[0] == c) {
+			ix, iy := i, i
+			if i.Kind == KApp && i.Op == "ite" && i.Args[0] == c {
+				ix, iy = i.Args[1], i.Args[2]
+			}
+			return tt.Ite(c, tt.Select(xa, ix), tt.Select(ya, iy))
+		}
+	}
 	return tt.App("select", es, a, i)
 }
 
@@ -664,6 +665,23 @@ func (tt *TermTable) Forall(vars []*Term, body *Term, pats ...[]*Term) *Term {
 	}
 	if len(vars) == 0 {
 		return body
+	}
+	// flatten (forall xs (=> R (forall ys B))) into (forall xs ys (=> R B))
+	if len(pats) == 0 {
+		if body.Kind == KApp && body.Op == "=>" && body.Args[1].Kind == KQuant && body.Args[1].Op == "forall" && len(body.Args[1].Pats) == 0 {
+			inner := body.Args[1]
+			ib := inner.Args[0]
+			var nb *Term
+			if ib.Kind == KApp && ib.Op == "=>" {
+				nb = tt.Implies(tt.And(body.Args[0], ib.Args[0]), ib.Args[1])
+			} else {
+				nb = tt.Implies(body.Args[0], ib)
+			}
+			return tt.Forall(append(append([]*Term{}, vars...), inner.Vars...), nb)
+		}
+		if body.Kind == KQuant && body.Op == "forall" && len(body.Pats) == 0 {
+			return tt.Forall(append(append([]*Term{}, vars...), body.Vars...), body.Args[0])
+		}
 	}
 	return tt.intern(&Term{Kind: KQuant, Op: "forall", Sort: "Bool", Args: []*Term{body}, Vars: vars, Pats: pats})
 }
